@@ -10,6 +10,7 @@ import Driver.PassP
 import Driver.TreeP
 import Driver.ResP
 import Driver.WidthP
+import Driver.LenP
 import Driver.RefP
 import Driver.InlP
 import Driver.CcP
@@ -42,6 +43,7 @@ def handle (line : String) : String :=
   | "tag" :: args => Driver.TagP.handle args
   | "tree" :: args => Driver.TreeP.handle args
   | "res" :: args => Driver.ResP.handle args
+  | "len" :: args => Driver.LenP.handle args
   | "width" :: args => Driver.WidthP.handle args
   | "widthspec" :: args => Driver.WidthP.handleSpec args
   | "refcmp" :: args => Driver.RefP.cmpHandle args
